@@ -356,12 +356,14 @@ func scanIndexFile(ctx context.Context, basePath string, fileNum uint32, buckets
 	var pos int64
 	var i int
 	for {
-		if _, err = file.ReadAt(sizeBuffer, pos); err != nil {
-			if err == io.EOF {
+		var n int
+		if n, err = file.ReadAt(sizeBuffer, pos); err != nil {
+			if err == io.EOF && n == 0 {
 				// Finished reading entire index.
 				break
 			}
-			if err == io.ErrUnexpectedEOF {
+			// ReadAt reports a partly read size prefix as io.EOF.
+			if err == io.EOF || err == io.ErrUnexpectedEOF {
 				log.Errorw("Unexpected EOF scanning index", "file", indexPath)
 				file.Close()
 				// Cut off incomplete data
